@@ -9,6 +9,7 @@ import (
 	"github.com/libsv/go-bt/v2/bscript/interpreter"
 	"github.com/libsv/go-bt/v2/bscript/interpreter/errs"
 	"github.com/libsv/go-bt/v2/bscript/interpreter/scriptflag"
+	"github.com/libsv/go-bt/v2/sighash"
 
 	"verif/internal/ref/scriptref"
 	"verif/internal/ref/txref"
@@ -33,6 +34,11 @@ type scriptCase struct {
 	// output - another script and another value, as left by FromUTXOs or by an earlier Execute
 	// against another output; only the output handed to WithTx counts
 	PrevStale bool `json:"stale_prev_on_input,omitempty"`
+	// PreHashed: the transaction OBJECT handed to Execute went through signature hashing earlier,
+	// while it still differed from what it is now (an output value, the checked input's sequence
+	// number and the lock time were edited in place afterwards, counts unchanged): only what it is
+	// now counts
+	PreHashed bool `json:"tx_object_hashed_before_in_place_edits,omitempty"`
 }
 
 func (c scriptCase) idx() int {
@@ -85,6 +91,8 @@ type recorder struct {
 	savedFirst [][]byte
 	// stack depth (data + alt) at BeforeStep and the pushes / pops announced since then
 	depth0, pushes, pops int
+	popD, popA           int // stack depths at the last BeforeStackPop
+	popSeen              bool
 	inStep               bool
 	stepOp               byte
 	scriptChanged        bool // the alt stack is dropped and P2SH restores the saved stack at a script change
@@ -220,10 +228,21 @@ func (r *recorder) AfterStackPush(s *interpreter.State, b []byte) {
 	r.trace = append(r.trace, 'p')
 	r.see(s)
 }
-func (r *recorder) BeforeStackPop(s *interpreter.State) { r.trace = append(r.trace, 'Q'); r.see(s) }
+func (r *recorder) BeforeStackPop(s *interpreter.State) {
+	r.trace = append(r.trace, 'Q')
+	if s != nil {
+		r.popD, r.popA, r.popSeen = len(s.DataStack), len(s.AltStack), true
+	}
+	r.see(s)
+}
 func (r *recorder) AfterStackPop(s *interpreter.State, b []byte) {
 	r.trace = append(r.trace, 'q')
 	r.pops++
+	// a pop that is reported took an item off one of the stacks
+	if s != nil && r.popSeen && !r.scribble && r.badState == "" && len(s.DataStack)+len(s.AltStack) != r.popD+r.popA-1 {
+		r.badState = fmt.Sprintf("AfterStackPop although no item left a stack (depths %d+%d before, %d+%d after)", r.popD, r.popA, len(s.DataStack), len(s.AltStack))
+	}
+	r.popSeen = false
 	r.see(s)
 }
 
@@ -245,6 +264,27 @@ func libRun(c scriptCase, dbg interpreter.Debugger) (err error, unlockAfter, loc
 	copy(unlockBuf, c.Unlock)
 	tx.Inputs[ix].UnlockingScript = libScriptNoCopy(unlockBuf)
 	prev := &bt.Output{Satoshis: amount, LockingScript: libScriptNoCopy(lockBuf)}
+	if c.PreHashed {
+		edit := func() {
+			tx.LockTime ^= 0x40
+			tx.Inputs[ix].SequenceNumber ^= 0x20
+			tx.Inputs[ix].PreviousTxOutIndex ^= 1
+			if len(tx.Outputs) > 0 {
+				tx.Outputs[0].Satoshis ^= 0x10
+			}
+		}
+		edit()
+		keepS, keepV := tx.Inputs[ix].PreviousTxScript, tx.Inputs[ix].PreviousTxSatoshis
+		tx.Inputs[ix].PreviousTxScript, tx.Inputs[ix].PreviousTxSatoshis = libScript(c.Lock), amount
+		for _, ht := range []sighash.Flag{0x41, 0x01, 0xc3, 0x83, 0x42} {
+			_, _ = tx.CalcInputSignatureHash(uint32(ix), ht)
+			_, _ = tx.CalcInputPreimage(uint32(ix), ht)
+			_, _ = tx.CalcInputPreimageLegacy(uint32(ix), ht)
+		}
+		_ = tx.Clone()
+		tx.Inputs[ix].PreviousTxScript, tx.Inputs[ix].PreviousTxSatoshis = keepS, keepV
+		edit() // back to the transaction the case is about
+	}
 	txBefore = tx.Bytes()
 	opts := []interpreter.ExecutionOptionFunc{interpreter.WithTx(tx, ix, prev), interpreter.WithFlags(scriptflag.Flag(c.Flags))}
 	if dbg != nil {
